@@ -78,6 +78,10 @@ def _val(draw, var, cls, depth, names, ctr, outer=()):
         k = draw(st.integers(0, 4))
         if k == 0:
             return ["count", ["op", "Select", src, v2, inner]]
+        if k == 1 and draw(st.integers(0, 2)) == 0:
+            # a lambda called where it is written (a helper that could not be substituted; the keyword-only parameter keeps it in
+            # place): its parameter is an object of the argument's class, call sites in its body are call sites
+            return ["called", v2, ["first", src], inner]
         if k == 1:
             return ["first", ["op", "Select", src, v2, inner]]
         if k == 2:
@@ -222,6 +226,8 @@ def render(ir, cbs, mode):
         return f"{R(ir[1])}.Count()"
     if k == "bin":
         return f"({R(ir[2])} {ir[1]} {R(ir[3])})"
+    if k == "called":
+        return f"(lambda {ir[1]}, *, z_=0: {R(ir[3])})({R(ir[2])})"
     if k == "tup":
         return "(" + ", ".join(R(x) for x in ir[1]) + ("," if len(ir[1]) == 1 else "") + ")"
     if k == "dict":
@@ -251,6 +257,9 @@ def sites_of(ir, depth=0, root_of_lambda=False):
         yield from sites_of(ir[4], depth + 1, True)
     elif k in ("count", "first", "fld", "idx"):
         yield from sites_of(ir[1], depth)
+    elif k == "called":
+        yield from sites_of(ir[2], depth)
+        yield from sites_of(ir[3], depth + 1)
     elif k == "wrap":
         yield from sites_of(ir[3], depth)
     elif k == "bin":
